@@ -15,7 +15,7 @@ var (
 	c10ErrB = errors.New("c10: fn b failed")
 )
 
-//verif:entry tier=quick,thorough steps=4000000 cover=all,repanic,empty
+//verif:entry dpor tier=quick,thorough steps=4000000 cover=all,repanic,empty
 //verif:doc ForEach, ALL interleavings: 0..2 items, 1..2 workers, optionally the mapper of item j or the generator (before item j) panics: without a panic every item is processed exactly once and the call returns after all mappers have; a panic is re-raised with the user's value; mapper gauge <= workers; no goroutine left.
 func Verif_C10_ForEach() {
 	n := rt.Choose("items", 3)
@@ -150,7 +150,7 @@ func Verif_C10_Finish() {
 	rt.Assert(rt.Live() == 0, "no goroutine started by Finish/FinishVoid remains alive")
 }
 
-//verif:entry tier=quick,thorough steps=4000000 cover=sum
+//verif:entry dpor tier=quick,thorough steps=4000000 cover=sum
 //verif:doc MapReduceChan, ALL interleavings: the caller feeds 0..2 symbolic items through its own channel and closes it; 1 worker; the result is the exact weighted sum; no goroutine left.
 func Verif_C10_Chan() {
 	n := rt.Choose("items", 3)
